@@ -55,6 +55,8 @@ ASSUMPTIONS = [
 ]
 
 ADDR = re.compile(r"(?i) at 0x[0-9a-f]+")  # also after upper / title
+# the same address after a filter rewrote the blanks around it (replace(' ', …)): any long hex run after 0x
+ADDR2 = re.compile(r"(?i)0x[0-9a-f]{6,}")
 UNESC = re.compile(r"&(amp|lt|gt|#34|#39);")
 _UNMAP = {"amp": "&", "lt": "<", "gt": ">", "#34": '"', "#39": "'"}
 
@@ -78,6 +80,7 @@ def _compare(where, on, off, sources):
                              % (where, non, eon, noff, eoff, ton[:400], toff[:400], str(sources)[:1500]))
     # repr of iterators / objects carries an address (e.g. <reversed object at 0x...>): normalised on both sides
     ton, toff = ADDR.sub(" at 0x", ton), ADDR.sub(" at 0x", toff)
+    ton, toff = ADDR2.sub("0x", ton), ADDR2.sub("0x", toff)
     got = unescape5(ton)
     if got != toff:
         i = next((j for j in range(min(len(got), len(toff))) if got[j] != toff[j]), min(len(got), len(toff)))
